@@ -16,7 +16,7 @@ func init() {
 	serve("C07", "B6", "B6m", "G5", "G6", "G6r", "B2", "B3")
 	serve("C08", "G4", "G8", "G12", "G18", "G19", "G6", "R4", "B6", "B6m")
 	serve("C09", "L1", "L2", "L8", "P3", "P3c", "P8", "L6", "S4", "G7", "G7r", "G16")
-	serve("C10", "P3", "P3w", "P4", "P5", "P7", "L1", "L8", "G15", "G16")
+	serve("C10", "P3", "P3w", "P4", "P5", "P7", "L1", "L8", "G15", "G16", "G21")
 	serve("C11", "R1", "R2", "R3", "R4", "P1", "P2", "G17")
 	serve("C12", "S2", "S3", "S4", "S6", "S7", "S8", "V3")
 	serve("C13", "S1", "S5", "S7")
@@ -25,7 +25,7 @@ func init() {
 	serve("C16", "G1", "G1b", "G9", "G10", "G10b", "R4")
 	serve("C17", "P1", "L2", "L3", "G11", "G20")
 	serve("C18", "L1", "L2", "L6", "L8", "P2", "R4", "G10", "G14", "G17")
-	serve("C19", "P3", "P6", "P9", "P10", "L1", "L6", "L8")
+	serve("C19", "P3", "P6", "P9", "P10", "G21", "L1", "L6", "L8")
 	serve("C20", "G2", "R4", "L2", "L3")
 }
 
